@@ -48,7 +48,7 @@ fn server(mut sock: UnixStream, behaviour: String, log: Arc<Mutex<Vec<String>>>,
                     0 => w(message(id, ldap_result(1, rc, b"", b"bind", None), None)),
                     // "cut": one entry of a search, then the connection is dropped (no SearchResultDone)
                     3 if behaviour == "cut" => { let mut o2 = vec![]; ownber::write(&message(id, entry(b"cn=e1", &[(b"cn", vec![b"e1".to_vec()])]), None), &mut o2, &mut |_| 0); let _ = sock.write_all(&o2); return; }
-                    3 => { w(message(id, entry(b"cn=e1", &[(b"cn", vec![b"e1".to_vec()])]), None)); w(message(id, entry(b"cn=e2", &[(b"cn", vec![b"e2".to_vec()])]), None)); w(message(id, ldap_result(5, rc, b"", b"done", Some(vec![b"ldap://r/".to_vec()])), None)); }
+                    3 => { w(message(id, entry(b"cn=e1", &[(b"cn", vec![b"e1".to_vec()])]), None)); w(message(id, crate::lanes::frame::c(TagClass::Application, 19, vec![crate::lanes::frame::octets(b"ldap://elsewhere/dc=x")]), None)); w(message(id, entry(b"cn=e2", &[(b"cn", vec![b"e2".to_vec()])]), None)); w(message(id, ldap_result(5, rc, b"", b"done", Some(vec![b"ldap://r/".to_vec()])), None)); }
                     6 => w(message(id, ldap_result(7, rc, b"", b"", None), None)), 8 => w(message(id, ldap_result(9, rc, b"", b"", None), None)),
                     10 => w(message(id, ldap_result(11, rc, b"dc=m", b"del", None), None)), 12 => w(message(id, ldap_result(13, rc, b"", b"", None), None)),
                     14 => w(message(id, ldap_result(15, if rc == 0 { 6 } else { rc }, b"", b"", None), None)),
@@ -72,12 +72,15 @@ fn entries(v: &[ldap3::ResultEntry]) -> String { v.iter().map(|e| ldap3::SearchE
 /// select! picks at random between the closed socket and the request queue; the blocking facade polls its driver only inside a call):
 /// which of OpSend / ResultRecv / Io a later operation fails with, whether an operation that does not wait for the server (Abandon,
 /// Unbind) still succeeds, and is_closed() are therefore not compared in that behaviour - that every later operation FAILS is.
+fn item_name(re: ldap3::ResultEntry) -> String { if re.is_ref() { "ref".to_string() } else if re.is_intermediate() { "inter".to_string() } else { ldap3::SearchEntry::construct(re).dn } }
 fn canon_lost(r: String, op: &Op, closing: bool) -> String {
     if !closing { return r; }
     if matches!(op, Op::Abandon(_) | Op::Unbind) { return "-".to_string(); }
-    r.replace("err:opsend", "err:lost").replace("err:resultrecv", "err:lost").replace("err:io", "err:lost")
+    // a streaming search that got nothing: whether it fails at the start or at its first next() is the same race
+    if r.starts_with("items= end=err:") { return "err:lost".to_string(); }
+    r.replace("err:opsend", "err:lost").replace("err:resultrecv", "err:lost").replace("err:io", "err:lost").replace("err:eos", "err:lost")
 }
-fn run_sync_side(sock: UnixStream, calls: &[(Mods, Op, bool)], closing: bool, gone: Arc<std::sync::atomic::AtomicBool>) -> Vec<String> {
+fn run_sync_side(sock: UnixStream, calls: &[(Mods, Op, u8)], closing: bool, gone: Arc<std::sync::atomic::AtomicBool>) -> Vec<String> {
     let st = LdapConnSettings::new().set_std_stream(StdStream::Unix(sock));
     let mut conn = match LdapConn::with_settings(st, "ldapi:///") { Ok(c) => c, Err(e) => return vec![format!("connect-err:{}", err_class(&e))] };
     let mut out = vec![];
@@ -90,8 +93,9 @@ fn run_sync_side(sock: UnixStream, calls: &[(Mods, Op, bool)], closing: bool, go
             Op::Bind(d, p) => conn.simple_bind(&s(d), &s(p)).map(|r| show_lr(&r)).unwrap_or_else(e),
             Op::Sasl => conn.sasl_external_bind().map(|r| show_lr(&r)).unwrap_or_else(e),
             Op::Search(b, sc, f, at) => { let attrs: Vec<String> = at.iter().map(|a| s(a)).collect();
-                if *streaming { match conn.streaming_search(&s(b), scope_of(*sc), &s(f), attrs) { Err(x) => e(x), Ok(mut es) => { let mut items = vec![]; let mut end = "none".to_string();
-                        loop { match es.next() { Ok(Some(re)) => items.push(ldap3::SearchEntry::construct(re).dn), Ok(None) => break, Err(x) => { end = e(x); break; } } }
+                if *streaming >= 1 { let started = if *streaming == 2 { conn.streaming_search_with(ldap3::adapters::EntriesOnly::new(), &s(b), scope_of(*sc), &s(f), attrs) } else { conn.streaming_search(&s(b), scope_of(*sc), &s(f), attrs) };
+                    match started { Err(x) => e(x), Ok(mut es) => { let mut items = vec![]; let mut end = "none".to_string();
+                        loop { match es.next() { Ok(Some(re)) => items.push(item_name(re)), Ok(None) => break, Err(x) => { end = e(x); break; } } }
                         let lid = es.last_id(); let res = es.result(); format!("items={} end={} lastid={} {}", items.join("+"), end, lid, show_lr(&res)) } } }
                 else { conn.search(&s(b), scope_of(*sc), &s(f), attrs).map(|sr| format!("entries={} {}", entries(&sr.0), show_lr(&sr.1))).unwrap_or_else(e) } }
             Op::Add(d, avs) => conn.add(&s(d), avs.iter().map(|(a, vs)| (a.clone(), vs.iter().cloned().collect::<HashSet<_>>())).collect()).map(|r| show_lr(&r)).unwrap_or_else(e),
@@ -115,7 +119,7 @@ fn run_sync_side(sock: UnixStream, calls: &[(Mods, Op, bool)], closing: bool, go
     out
 }
 
-async fn run_async_side(sock: UnixStream, calls: &[(Mods, Op, bool)], closing: bool, gone: Arc<std::sync::atomic::AtomicBool>) -> Vec<String> {
+async fn run_async_side(sock: UnixStream, calls: &[(Mods, Op, u8)], closing: bool, gone: Arc<std::sync::atomic::AtomicBool>) -> Vec<String> {
     let st = LdapConnSettings::new().set_std_stream(StdStream::Unix(sock));
     let (conn, mut ldap) = match LdapConnAsync::with_settings(st, "ldapi:///").await { Ok(c) => c, Err(e) => return vec![format!("connect-err:{}", err_class(&e))] };
     tokio::spawn(async move { let _ = conn.drive().await; });
@@ -129,8 +133,9 @@ async fn run_async_side(sock: UnixStream, calls: &[(Mods, Op, bool)], closing: b
             Op::Bind(d, p) => ldap.simple_bind(&s(d), &s(p)).await.map(|r| show_lr(&r)).unwrap_or_else(e),
             Op::Sasl => ldap.sasl_external_bind().await.map(|r| show_lr(&r)).unwrap_or_else(e),
             Op::Search(b, sc, f, at) => { let attrs: Vec<String> = at.iter().map(|a| s(a)).collect();
-                if *streaming { match ldap.streaming_search(&s(b), scope_of(*sc), &s(f), attrs).await { Err(x) => e(x), Ok(mut es) => { let mut items = vec![]; let mut end = "none".to_string();
-                        loop { match es.next().await { Ok(Some(re)) => items.push(ldap3::SearchEntry::construct(re).dn), Ok(None) => break, Err(x) => { end = e(x); break; } } }
+                if *streaming >= 1 { let started = if *streaming == 2 { ldap.streaming_search_with(ldap3::adapters::EntriesOnly::new(), &s(b), scope_of(*sc), &s(f), attrs).await } else { ldap.streaming_search(&s(b), scope_of(*sc), &s(f), attrs).await };
+                    match started { Err(x) => e(x), Ok(mut es) => { let mut items = vec![]; let mut end = "none".to_string();
+                        loop { match es.next().await { Ok(Some(re)) => items.push(item_name(re)), Ok(None) => break, Err(x) => { end = e(x); break; } } }
                         let lid = es.ldap_handle().last_id(); let res = es.finish().await; format!("items={} end={} lastid={} {}", items.join("+"), end, lid, show_lr(&res)) } } }
                 else { ldap.search(&s(b), scope_of(*sc), &s(f), attrs).await.map(|sr| format!("entries={} {}", entries(&sr.0), show_lr(&sr.1))).unwrap_or_else(e) } }
             Op::Add(d, avs) => ldap.add(&s(d), avs.iter().map(|(a, vs)| (a.clone(), vs.iter().cloned().collect::<HashSet<_>>())).collect()).await.map(|r| show_lr(&r)).unwrap_or_else(e),
@@ -161,8 +166,8 @@ pub fn gen(rng: &mut Rng, n: usize, out: &mut Vec<String>) {
             let mut m = rand_mods(rng);
             if behaviour == "silent" { m.timeout = Some(80); } else { m.timeout = m.timeout.map(|_| 3000); }
             let o = if j == k - 1 && rng.chance(1, 6) { Op::Unbind } else { rand_op(rng) };
-            let streaming = matches!(o, Op::Search(..)) && rng.chance(1, 2);
-            toks.push(show_mods(&m)); toks.push(format!("{}{}", if streaming { "S" } else { "" }, show_op(&o)));
+            let pre = if matches!(o, Op::Search(..)) { *rng.pick(&["", "S", "S", "A"]) } else { "" };
+            toks.push(show_mods(&m)); toks.push(format!("{}{}", pre, show_op(&o)));
         }
         out.push(format!("sync {} {}", behaviour, toks.join(" ")));
     }
@@ -170,7 +175,8 @@ pub fn gen(rng: &mut Rng, n: usize, out: &mut Vec<String>) {
 
 pub fn run(args: &[&str]) -> (String, Option<String>) {
     let behaviour = args[0].to_string();
-    let calls: Vec<(Mods, Op, bool)> = args[1..].chunks(2).map(|c| { let (st, o) = if let Some(r) = c[1].strip_prefix('S') { if r.starts_with("search/") { (true, r) } else { (false, c[1]) } } else { (false, c[1]) }; (parse_mods(c[0]), parse_op(o), st) }).collect();
+    // "Ssearch/.." = streaming_search, "Asearch/.." = streaming_search_with(EntriesOnly), "search/.." = search()
+    let calls: Vec<(Mods, Op, u8)> = args[1..].chunks(2).map(|c| { let (st, o) = if c[1].starts_with("Ssearch/") { (1u8, &c[1][1..]) } else if c[1].starts_with("Asearch/") { (2u8, &c[1][1..]) } else { (0u8, c[1]) }; (parse_mods(c[0]), parse_op(o), st) }).collect();
     let run_one = |sync_side: bool| -> Option<(Vec<String>, Vec<String>)> {
         let (a, b) = UnixStream::pair().ok()?;
         let log = Arc::new(Mutex::new(vec![])); let l2 = log.clone(); let bh = behaviour.clone();
